@@ -79,6 +79,8 @@ pub const FAIL_KINDS: &[&str] = &[
     "macro-case-only",
     "undef-deep",
     "error-in-macro",
+    "pc-at-parse-time",
+    "include-in-macro",
 ];
 
 /// Devices used by generated programs: (name, forbids mul, forbids jmp, avr8l, flash words, ram, eeprom)
@@ -784,6 +786,28 @@ pub fn gen(r: &mut Rng, pool: &Pool, opts: &GenOpts) -> Program {
                 vec![Node::Lines(l)]
             }
             // the failure happens while a macro body is expanded (pass 0)
+            // `pc` exists only while pass 2 runs: a condition that is evaluated while parsing (or
+            // while a macro is expanded) cannot see it - unless an earlier build left it behind
+            "pc-at-parse-time" => {
+                if g.r.chance(1, 2) {
+                    vec![Node::Cond { head: format!(".if pc > {}", g.r.below(40)), then: vec![Node::Lines(vec!["    nop".to_string(), "    nop".to_string()])], els: Some((".else".to_string(), vec![Node::Lines(vec!["    ret".to_string()])])) }]
+                } else {
+                    vec![
+                        Node::Macro(vec![format!(".macro p{}c", pool.tag), format!(".if pc > {}", g.r.below(40)), "    nop".to_string(), ".else".to_string(), "    ret".to_string(), "    ret".to_string(), ".endif".to_string(), ".endm".to_string()]),
+                        Node::Lines(vec![format!("    p{}c", pool.tag)]),
+                    ]
+                }
+            }
+            // an .include inside a macro body is looked up when the macro is expanded, with no
+            // search directories at all: it fails - unless an earlier build left its directories
+            // behind (the names are those the include trees of the corpora use)
+            "include-in-macro" => {
+                let name = ["f1.inc", "f2.inc", "f1.asm", "f2.h", "c1.inc", "c2.inc", "f3.inc"][g.r.usize(7)];
+                vec![
+                    Node::Macro(vec![format!(".macro i{}m", pool.tag), "    nop".to_string(), format!(".include \"{}\"", name), ".endm".to_string()]),
+                    Node::Lines(vec![format!("    i{}m", pool.tag)]),
+                ]
+            }
             "error-in-macro" => vec![
                 Node::Macro(vec![format!(".macro e{}rr", pool.tag), "    nop".to_string(), format!(".error \"{}in macro\"", opts.msg_tag), ".endm".to_string()]),
                 Node::Lines(vec![format!("    e{}rr", pool.tag)]),
